@@ -996,9 +996,24 @@ impl<'de> de::Deserializer<'de> for TreeDe<'de> {
         self.deserialize_seq(v)
     }
 
+    /// `deserialize_bytes` is the TRANSIENT request: a streaming format serves it from
+    /// a bounded scratch buffer (ciborium: 4096 bytes) and refuses a longer byte
+    /// string; only `deserialize_byte_buf` is unbounded.  The strict binary variant
+    /// does the same.
+    fn deserialize_bytes<V: Visitor<'de>>(self, v: V) -> Result<V::Value, StoreError> {
+        if self.strict() {
+            if let Tree::Bytes(b) = self.t {
+                if b.len() > 4096 {
+                    return Err(StoreError("invalid type: bytes, expected bytes".into()));
+                }
+            }
+        }
+        self.deserialize_any(v)
+    }
+
     serde::forward_to_deserialize_any! {
         bool i8 i16 i32 i64 i128 u8 u16 u32 u64 u128 f32 f64 char str string
-        bytes byte_buf unit unit_struct identifier ignored_any
+        byte_buf unit unit_struct identifier ignored_any
     }
 }
 
